@@ -79,6 +79,62 @@ struct Sheet {
     merges: Vec<(u32, u32, u32, u32)>,
     implicit: bool,
     shared_formula: Option<(u32, u32, u32)>, // (col, first row, last row)
+    /// legal oddities of the physical layout, none of which changes what the sheet holds:
+    /// 1 = the rows are written last to first, 2 = the last cell is preceded by another cell at
+    /// the same position (the later one wins), 4 = the dimension record names the first row only
+    quirk: u8,
+}
+
+/// Which layout oddity sheet `idx` of the workbook `seed` has: a stream of its own, so that the
+/// contents of the synthesized sheets are what they were before the oddities existed.
+fn quirk_of(seed: u64, idx: usize) -> u8 {
+    match crate::prng::h3(seed, crate::prng::tag("synth-quirks"), idx as u64) % 10 {
+        0 => 1,
+        1 => 2,
+        2 => 4,
+        3 => 1 | 4,
+        4 => 1 | 2,
+        _ => 0,
+    }
+}
+
+impl Sheet {
+    /// The rows in the order and multiplicity in which they are written
+    fn emitted_rows(&self) -> Vec<(u32, Vec<(u32, V)>)> {
+        let mut rows = self.rows.clone();
+        if self.implicit || self.shared_formula.is_some() {
+            return rows;
+        }
+        if self.quirk & 2 != 0 {
+            if let Some((_, cs)) = rows.last_mut() {
+                if let Some((c, _)) = cs.last().cloned() {
+                    let at = cs.len() - 1;
+                    cs.insert(at, (c, V::Num(99.0)));
+                }
+            }
+        }
+        if self.quirk & 1 != 0 {
+            rows.reverse();
+        }
+        rows
+    }
+    /// (first row, last row, first column, last column) as the dimension record declares them
+    fn declared_dims(&self) -> (u32, u32, u32, u32) {
+        let (mut rmin, mut rmax, mut cmin, mut cmax) = (u32::MAX, 0, u32::MAX, 0);
+        for (r, cs) in &self.rows {
+            rmin = rmin.min(*r);
+            rmax = rmax.max(*r);
+            for (c, _) in cs {
+                cmin = cmin.min(*c);
+                cmax = cmax.max(*c);
+            }
+        }
+        if self.quirk & 4 != 0 && !self.implicit {
+            (rmin, rmin, cmin, cmin)
+        } else {
+            (rmin, rmax, cmin, cmax)
+        }
+    }
 }
 
 const WORDS: [&str; 12] = ["alpha", "beta", "gamma & delta", "x<y", "", " lead", "trail ", "ünï", "0", "TRUE", "#N/A", "long long long text"];
@@ -141,23 +197,15 @@ fn gen_sheet(ch: &mut Chooser, idx: usize, n_strings: usize) -> Sheet {
     } else {
         None
     };
-    Sheet { name: format!("{} {}", *ch.pick(&["Data", "Sheet", "Näme", "a&b", "x"]), idx + 1), rows, merges, implicit: ch.chance(1, 4), shared_formula }
+    Sheet { name: format!("{} {}", *ch.pick(&["Data", "Sheet", "Näme", "a&b", "x"]), idx + 1), rows, merges, implicit: ch.chance(1, 4), shared_formula, quirk: 0 }
 }
 
 fn sheet_xml(s: &Sheet) -> String {
     let mut x = String::from("<?xml version=\"1.0\" encoding=\"UTF-8\" standalone=\"yes\"?>\n<worksheet xmlns=\"http://schemas.openxmlformats.org/spreadsheetml/2006/main\" xmlns:r=\"http://schemas.openxmlformats.org/officeDocument/2006/relationships\">");
-    let (mut rmin, mut rmax, mut cmin, mut cmax) = (u32::MAX, 0, u32::MAX, 0);
-    for (r, cs) in &s.rows {
-        rmin = rmin.min(*r);
-        rmax = rmax.max(*r);
-        for (c, _) in cs {
-            cmin = cmin.min(*c);
-            cmax = cmax.max(*c);
-        }
-    }
+    let (rmin, rmax, cmin, cmax) = s.declared_dims();
     x.push_str(&format!("<dimension ref=\"{}:{}\"/>", a1(rmin, cmin), a1(rmax, cmax)));
     x.push_str("<sheetData>");
-    let mut rows = s.rows.clone();
+    let mut rows = s.emitted_rows();
     if let Some((col, ra, rb)) = s.shared_formula {
         for r in ra..=rb {
             let v = if r == ra { V::FormulaNum(format!("SHARED:{}:{}", a1(ra, col), a1(rb, col)), 1.0) } else { V::FormulaNum("SHAREDREF".into(), 2.0) };
@@ -233,7 +281,13 @@ pub fn xlsx(seed: u64) -> Vec<u8> {
     let mut ch = Chooser::new(seed, "synth-xlsx");
     let n_sheets = ch.range(1, 4) as usize;
     let strings: Vec<String> = (0..ch.range(3, 9)).map(|i| if i == 1 { String::new() } else { format!("{} {}", WORDS[ch.below(WORDS.len() as u64) as usize], i) }).collect();
-    let sheets: Vec<Sheet> = (0..n_sheets).map(|i| gen_sheet(&mut ch, i, strings.len())).collect();
+    let sheets: Vec<Sheet> = (0..n_sheets)
+        .map(|i| {
+            let mut s = gen_sheet(&mut ch, i, strings.len());
+            s.quirk = quirk_of(seed, i);
+            s
+        })
+        .collect();
     let pack = |ch: &mut Chooser| if ch.chance(1, 2) { Pack::Deflated } else { Pack::Stored };
     let mut entries = Vec::new();
     let mut ct = String::from("<?xml version=\"1.0\" encoding=\"UTF-8\"?><Types xmlns=\"http://schemas.openxmlformats.org/package/2006/content-types\"><Default Extension=\"rels\" ContentType=\"application/vnd.openxmlformats-package.relationships+xml\"/><Default Extension=\"xml\" ContentType=\"application/xml\"/></Types>");
@@ -397,6 +451,8 @@ fn grid_sheets(seed: u64, tag: &str) -> (Vec<Sheet>, Vec<String>) {
             let mut s = gen_sheet(&mut ch, i, strings.len());
             s.name = format!("S{}", i + 1);
             s.shared_formula = None;
+            s.implicit = false;
+            s.quirk = quirk_of(seed, i);
             s
         })
         .collect();
@@ -443,15 +499,7 @@ fn xls_stream(seed: u64, pad: usize) -> Vec<u8> {
         bof.extend_from_slice(&0x0010u16.to_le_bytes());
         bof.extend_from_slice(&[0xBB, 0x0D, 0xCC, 0x07, 0, 0, 0, 0, 6, 0, 0, 0]);
         biff_rec(&mut o, 0x0809, &bof);
-        let (mut rmin, mut rmax, mut cmin, mut cmax) = (u32::MAX, 0, u32::MAX, 0);
-        for (r, cs) in &s.rows {
-            rmin = rmin.min(*r);
-            rmax = rmax.max(*r);
-            for (c, _) in cs {
-                cmin = cmin.min(*c);
-                cmax = cmax.max(*c);
-            }
-        }
+        let (rmin, rmax, cmin, cmax) = s.declared_dims();
         let mut dim = Vec::new();
         dim.extend_from_slice(&rmin.to_le_bytes());
         dim.extend_from_slice(&(rmax + 1).to_le_bytes());
@@ -459,7 +507,7 @@ fn xls_stream(seed: u64, pad: usize) -> Vec<u8> {
         dim.extend_from_slice(&(cmax as u16 + 1).to_le_bytes());
         dim.extend_from_slice(&0u16.to_le_bytes());
         biff_rec(&mut o, 0x0200, &dim);
-        for (r, cs) in &s.rows {
+        for (r, cs) in &s.emitted_rows() {
             for (c, v) in cs {
                 let mut d = Vec::new();
                 d.extend_from_slice(&(*r as u16).to_le_bytes());
@@ -592,22 +640,14 @@ pub fn xlsb(seed: u64) -> Vec<u8> {
     for s in &sheets {
         let mut o = Vec::new();
         brt(&mut o, 0x0081, &[]);
-        let (mut rmin, mut rmax, mut cmin, mut cmax) = (u32::MAX, 0, u32::MAX, 0);
-        for (r, cs) in &s.rows {
-            rmin = rmin.min(*r);
-            rmax = rmax.max(*r);
-            for (c, _) in cs {
-                cmin = cmin.min(*c);
-                cmax = cmax.max(*c);
-            }
-        }
+        let (rmin, rmax, cmin, cmax) = s.declared_dims();
         let mut dim = Vec::new();
         for v in [rmin, rmax, cmin, cmax] {
             dim.extend_from_slice(&v.to_le_bytes());
         }
         brt(&mut o, 0x0094, &dim);
         brt(&mut o, 0x0091, &[]);
-        for (r, cs) in &s.rows {
+        for (r, cs) in &s.emitted_rows() {
             let mut rh = r.to_le_bytes().to_vec();
             rh.extend_from_slice(&[0u8; 13]);
             brt(&mut o, 0x0000, &rh);
